@@ -60,8 +60,12 @@ def gen_case(rng, fi=None):
     if node["fi"]:
         cash = None
         notional = float(rng.choice([1000, 50000, 1000000])) if rng.random() < 0.8 else None
+    # a contribution / redemption booked by CapitalFlow earlier in the same stack: Rebalance sizes against the value that includes it
+    flow = None
+    if not node["fi"] and rng.random() < 0.25:
+        flow = rng.choice([0.25, 0.1, -0.1, -0.3, 1.0])        # as a fraction of the node's value before the flow
     return {"spec": spec, "nops": nops, "path": path, "targets": [[i, w] for i, w in zip(idxs, ws)], "cash": cash,
-            "notional": notional, "exact": exact}
+            "notional": notional, "exact": exact, "flow": flow}
 
 
 def leaves(bt, n):
@@ -103,6 +107,15 @@ def run_case(ctx, bt, case, collected, replaying=False):
             if gross > 0 and m._value != 0 and abs(m._value) < 1e-6 * gross:
                 ctx.count("prior-unusable:ill-conditioned (value is cancellation noise of a large gross)")
                 return
+    if case.get("flow") is not None:
+        amount = float(case["flow"]) * V0
+        try:
+            bt.algos.CapitalFlow(amount)(node)
+        except Exception as e:  # noqa
+            ctx.count("prior-raised:flow:" + E.classify_exc(e))
+            return
+        ctx.count("rebalance-after-capital-flow")
+        V0 = V0 + amount        # (not read back: a read would refresh the tree for the algo under test)
     names = [k.name for k in kids]
     weights = {names[i]: w for i, w in case["targets"]}
     node.temp = {"weights": dict(weights)}
